@@ -63,6 +63,20 @@ class CFG:
         self.n = n
         self.succ = [[] for _ in range(n)]
         self.cancel = [None] * n  # yield drop edges (future cancelled at this await)
+        # temporaries assigned exactly once, from a literal (the `_g = const false; switchInt(move _g)` shape of `if false`)
+        ndef, lit = {}, {}
+        for b in self.blocks:
+            for s in b["st"]:
+                lhs = s.get("lhs")
+                if lhs:
+                    ndef[lhs[0]] = ndef.get(lhs[0], 0) + 1
+                    rv = s.get("rv") or {}
+                    if len(lhs) == 1 and rv.get("r") == "use" and op_place(rv["op"]) is None and isinstance(rv["op"].get("v"), (bool, int)) \
+                            and "cdef" not in rv["op"]:
+                        lit[lhs[0]] = rv["op"]["v"]
+            t = b["term"]
+            if t and t.get("dest"):
+                ndef[t["dest"][0]] = ndef.get(t["dest"][0], 0) + 1
         for i, b in enumerate(self.blocks):
             t = b["term"]
             if t is None:
@@ -73,9 +87,15 @@ class CFG:
             elif k == "switch":
                 tg = [a[1] for a in t["arms"]] + [t["else"]]
                 on = t["on"]
-                if op_place(on) is None and isinstance(on.get("v"), (bool, int)):
+                p = op_place(on)
+                val = None
+                if p is None and isinstance(on.get("v"), (bool, int)):
+                    val = int(on["v"])
+                elif p is not None and len(p) == 1 and ndef.get(p[0]) == 1 and p[0] in lit and not fn.locals[p[0]].get("name"):
+                    val = int(lit[p[0]])
+                if val is not None:
                     # a test of a literal (`if false`, a folded cfg!()): only the matching edge exists
-                    hit = [a[1] for a in t["arms"] if a[0] == int(on["v"])]
+                    hit = [a[1] for a in t["arms"] if a[0] == val]
                     tg = hit[:1] if hit else [t["else"]]
                 seen = []
                 for x in tg:
